@@ -480,6 +480,15 @@ static void generate_minimal_hash(std::vector<std::string> str, Port_Matcher &pm
         return;
     }
     pm.assoc = find_assoc(str, pm.pos);
+    {
+        //the search for assoc may end with collisions left
+        auto hashed = do_hash(str, pm.pos, pm.assoc);
+        if(count_dups(hashed) != 0) {
+            pm.pos.clear();
+            pm.assoc.clear();
+            return;
+        }
+    }
     pm.remap = find_remap(str, pm.pos, pm.assoc);
 }
 
